@@ -78,3 +78,38 @@ Proof.
   - destruct (existsb (Nat.eqb n) (snd e)); split; try discriminate; eauto.
   - split; [discriminate|eauto].
 Qed.
+
+(* ---------- requested forms ---------- *)
+Theorem factory_type_forms t :
+  is_factory_type t = match factory_form t with Some _ => true | None => false end /\
+  factory_plugin_type t = option_map fst (factory_form t).
+Proof.
+  unfold factory_plugin_type.
+  destruct t as [[|] [|n] [|p [|q [|r l]]]]; cbn; try (split; reflexivity);
+    destruct p; cbn; try (split; reflexivity); destruct q; cbn; split; reflexivity.
+Qed.
+
+(* NewFactory by requested type reaches the registered constructor exactly for a factory form of
+   a registered (plugin type, name): with the error-result flag of that form; a type that is no
+   factory form is refused by a panic (expectation), a form of something unregistered is the
+   error result *)
+Theorem new_factory_request_spec content t n :
+  types_unique content = true ->
+  new_factory_request content t n =
+    match factory_form t with
+    | None => FqPanic
+    | Some (TyIface p, we) => if registered_b content p n then FqReaches p we else FqLookupErr
+    | Some (_, _) => FqLookupErr
+    end.
+Proof.
+  intros U. unfold new_factory_request.
+  destruct (factory_type_forms t) as [F _]. rewrite F.
+  destruct t as [[|] [|m] [|p [|q [|r l]]]]; cbn; try reflexivity.
+  - destruct p as [pt| |]; cbn; try reflexivity.
+    rewrite (find_registered content pt n U). unfold reg_get.
+    destruct (find (fun e => Nat.eqb (fst e) pt) content) as [e|]; [destruct (existsb (Nat.eqb n) (snd e))|]; reflexivity.
+  - destruct p as [pt| |]; destruct q; cbn; try reflexivity.
+    rewrite (find_registered content pt n U). unfold reg_get.
+    destruct (find (fun e => Nat.eqb (fst e) pt) content) as [e|]; [destruct (existsb (Nat.eqb n) (snd e))|]; reflexivity.
+  - destruct q; reflexivity.
+Qed.
